@@ -25,14 +25,15 @@ define_language! {
 
 define_language! {
     pub enum LA {
-        Num(u32) = "num",
+        Num(u32),
         Var(Slot) = "var",
         Add(AppliedId, AppliedId) = "add",
         Mul(AppliedId, AppliedId) = "mul",
         Neg(AppliedId) = "neg",
         Sum(Bind<AppliedId>) = "sum",
         Let(Bind<AppliedId>, AppliedId) = "let",
-        Cst(u32) = "cst",
+        // uninterpreted constant c is stored as -(c+1), so that its printed form is not a Num
+        Cst(i32),
     }
 }
 
@@ -206,7 +207,7 @@ impl SimLang for LA {
     fn mk(t: &Tm, nm: &mut Naming) -> LA {
         match t.name() {
             "num" => LA::Num(t.pay),
-            "cst" => LA::Cst(t.pay),
+            "cst" => LA::Cst(-(t.pay as i32) - 1),
             "var" => LA::Var(nm.slot(t.slots[0])),
             "add" => LA::Add(nul(), nul()),
             "mul" => LA::Mul(nul(), nul()),
@@ -219,7 +220,7 @@ impl SimLang for LA {
     fn unmk(&self) -> (&'static str, u32, Vec<Slot>, Vec<Vec<Slot>>) {
         match self {
             LA::Num(p) => ("num", *p, vec![], vec![]),
-            LA::Cst(p) => ("cst", *p, vec![], vec![]),
+            LA::Cst(p) => ("cst", (-(*p) - 1) as u32, vec![], vec![]),
             LA::Var(s) => ("var", 0, vec![*s], vec![]),
             LA::Add(_, _) => ("add", 0, vec![], vec![vec![], vec![]]),
             LA::Mul(_, _) => ("mul", 0, vec![], vec![vec![], vec![]]),
